@@ -346,7 +346,11 @@ _HUNG = set()
 def work(job):
     idx, nslots, k = job
     part = Partial()
-    for n, (pt, _combo) in enumerate(M.points(k)):
+    # the deviation-bounded neighbourhood of the base point + the cross products and corner points of the lab
+    every = [pt for pt, _combo in M.points(k)]
+    seen = {M.point_id(pt) for pt in every}
+    every += [pt for pt in M.extra_points(1) if M.point_id(pt) not in seen]
+    for n, pt in enumerate(every):
         if n % nslots != idx:
             continue
         model, cfg = M.build_model(pt)
